@@ -3,8 +3,8 @@ package colvet
 import (
 	"fmt"
 	"os"
-	"runtime"
 	"path/filepath"
+	"runtime"
 	"sort"
 	"strings"
 	"time"
